@@ -130,6 +130,34 @@ func c01AllEntryPoints(mon *Mon, db *database.Database, q string, o database.Sea
 			c01Check(mon, "cached-varied-limits", db, q, o2.Limit, effLimit(o2.Limit, universalDefaultLimit), cdb.SearchWithOptionsAndCache(q, o2), fin)
 		}
 	})
+	// the cached answer after the command list was replaced (also while the cache was switched off, and by an
+	// empty list): every result must be an entry of the database as it is NOW
+	guarded(mon, "cached-after-update", q, func() {
+		cp := &database.Database{Commands: c03Clone(db.Commands)}
+		cdb := database.NewCachedDatabase(cp)
+		first := cdb.SearchWithOptionsAndCache(q, o)
+		repl := c03Clone(db.Commands)
+		for i, j := 0, len(repl)-1; i < j; i, j = i+1, j-1 { // same entries, other positions, other array
+			repl[i], repl[j] = repl[j], repl[i]
+		}
+		switch len(q) % 3 {
+		case 0:
+			cdb.EnableCache(false)
+			cdb.UpdateDatabase(repl)
+			cdb.EnableCache(true)
+			mon.Tag("c01.update-while-cache-off")
+		case 1:
+			cdb.UpdateDatabase(repl)
+		default:
+			cdb.UpdateDatabase(nil)
+			c01Check(mon, "cached-after-empty-update", cdb.Database, q, o.Limit, effLimit(o.Limit, universalDefaultLimit), cdb.SearchWithOptionsAndCache(q, o), fin)
+			cdb.UpdateDatabase(repl)
+		}
+		c01Check(mon, "cached-after-update", cdb.Database, q, o.Limit, effLimit(o.Limit, universalDefaultLimit), cdb.SearchWithOptionsAndCache(q, o), fin)
+		if len(first) > 0 {
+			mon.Tag("c01.cached-after-update.first-nonempty")
+		}
+	})
 	guarded(mon, "SearchWithPipelineOptions", q, func() {
 		c01Check(mon, "SearchWithPipelineOptions", db, q, o.Limit, effLimit(o.Limit, legacyDefaultLimit), db.SearchWithPipelineOptions(q, o), fin)
 	})
